@@ -289,7 +289,12 @@ class ServerSet(object):
       work = self._notification_queue.get()
       self._cb_blocker.ensure_safe()
       try:
-        new_nodes, removed_nodes = work
+        # Diff the listing against the members actually announced (not against the
+        # previous listing): a node that vanished before it could be read and was
+        # re-created before the next listing is then picked up by that listing.
+        current_nodes = set(self._members)
+        new_nodes = work - current_nodes
+        removed_nodes = current_nodes - work
         new_members = self._zk_nodes_to_members(new_nodes)
         self._members.update(((m.name, m) for m in new_members))
 
@@ -322,9 +327,6 @@ class ServerSet(object):
       children - The new set of child nodes.
     """
     children = set([c for c in children if self._member_filter(c)])
-    current_nodes = set(self._nodes)
     self._nodes = children
-    new_nodes = children - current_nodes
-    removed_nodes = current_nodes - children
     self._log.debug("Queueing notifications")
-    self._notification_queue.put((new_nodes, removed_nodes))
+    self._notification_queue.put(children)
